@@ -234,3 +234,31 @@ Theorem C07_roundtrip_a64_accepted : forall f, wf_in f -> fi_arch f = A64 -> a64
                      trunc (qget (cc_srsize (fi_cc f)) g) (st_reg s3 g r) = trunc (qget (cc_srsize (fi_cc f)) g) (st_reg s0 g r)).
 Proof. exact a64_roundtrip_accepted. Qed.
 Print Assumptions C07_roundtrip_a64_accepted.
+
+(* round 4: frames with argument copies (emit_args_assignment: register/stack arguments moved to registers or local slots, the
+   API-level form of the allocator's kStackArgToStack copies) are executed on the proven machine by FrameExec.exec_args_frame;
+   this theorem says what its verdict 0 means: prolog and copies run, sp is unchanged by the copies, EVERY argument is at its
+   destination (register value / intact 4|8-byte fragment in memory), and after the most hostile confined body the epilog returns
+   to the return address with the required sp and every preserved register restored on its save width *)
+Theorem C07_exec_args_frame_sound : forall a pro asg epi sp0 ra args dirty preserved srsize has_fp csize local_off lsize cleanup,
+  fst (exec_args_frame a pro asg epi sp0 ra args dirty preserved srsize has_fp csize local_off lsize cleanup) = 0 ->
+  let s0 := init_state_args a sp0 ra args in
+  exists s1 s1' s3,
+    run a pro s0 = Some s1 /\ run a asg s1 = Some s1' /\ st_reg s1' 0 (sp_id a) = st_reg s1 0 (sp_id a) /\
+    (forall k spec, nth_error args k = Some spec -> arg_at_destination a s1' (Z.of_nat k) spec) /\
+    run a epi (poison_body a s1' dirty has_fp csize local_off lsize) = Some s3 /\
+    st_ret s3 = Some ra /\ st_reg s3 0 (sp_id a) = sp0 + ret_addr_size a + cleanup /\
+    (forall g r, 0 <= g <= 3 -> In r (bits_of 32 (qget preserved g)) -> ~ (g = 0 /\ r = sp_id a) ->
+       trunc (if g =? 0 then reg_size a else qget srsize g) (st_reg s3 g r) = trunc (if g =? 0 then reg_size a else qget srsize g) (st_reg s0 g r)).
+Proof. exact exec_args_frame_sound. Qed.
+Print Assumptions C07_exec_args_frame_sound.
+
+(* round 4: on a tree with fixes/C07-final-alignment-truthful.patch (finalize lowers an alignment that is neither natural nor reaches
+   the minimum dynamic alignment to the natural one) the body sp has the REPORTED final alignment for every x86/x64 frame: the
+   guard of C07_alignment_x86 disappears (and C07_alignment_x86_refuted no longer describes the tree: its witness has fi_align_fix = false) *)
+Theorem C07_alignment_x86_fixed : forall f, wf_in f -> is_x86_family (fi_arch f) = true -> forall sp0,
+  fi_align_fix f = true ->
+  (sp0 + reg_size (fi_arch f)) mod cc_natural (fi_cc f) = 0 -> uses_stack f (finalize f) ->
+  x86_sp_body f sp0 mod final_alignment f = 0.
+Proof. exact x86_sp_body_aligned_fixed. Qed.
+Print Assumptions C07_alignment_x86_fixed.
